@@ -121,6 +121,77 @@ pub fn gen_any_value(rng: &mut Rng, depth: usize) -> MValue {
     }
 }
 
+/// A (label, value) pair in the style of the IANA registries' non-reserved entries: a registered
+/// header parameter / key parameter / claim number together with one of the value shapes such
+/// entries take (certificate bags and chains, thumbprints, URIs, nested maps, coordinates ...).
+/// `kind`: 0 = header parameter, 1 = key parameter, 2 = claim.
+pub fn gen_registered_pair(rng: &mut Rng, kind: u8) -> (i128, MValue) {
+    const HDR: &[i128] = &[
+        8, 9, 10, 11, 12, 13, 14, 15, 16, 22, 23, 24, 25, 32, 33, 34, 35, 256, 257, 258, -65537,
+        // ... and the algorithm-specific header parameters (ephemeral / static keys, salt,
+        // PartyU / PartyV identity, nonce, other; sender certificates)
+        -1, -2, -3, -20, -21, -22, -23, -24, -25, -26, -27, -28, -29,
+    ];
+    const KEY: &[i128] = &[
+        -1, -2, -3, -4, -5, -6, -7, -8, -9, -10, -11, -12, 6, 7, -70000,
+    ];
+    const CLM: &[i128] = &[
+        8, 9, 10, 38, 39, 40, 256, 257, 258, 259, 260, 261, 262, 263, 264, 265, 266, 273, 2394,
+    ];
+    let label = *rng.pick(match kind {
+        0 => HDR,
+        1 => KEY,
+        _ => CLM,
+    });
+    let blob = |rng: &mut Rng| {
+        let n = *rng.pick(&[0usize, 1, 8, 20, 32, 33, 48, 64, 65, 300, 1400]);
+        MValue::Bytes(if rng.bool() {
+            rng.bytes(n)
+        } else {
+            vec![0x30; n]
+        })
+    };
+    let v = match rng.below(14) {
+        0 => blob(rng),
+        1 => MValue::Array(vec![blob(rng)]),
+        2 => MValue::Array(vec![blob(rng), blob(rng)]),
+        3 => MValue::Array(vec![blob(rng), blob(rng), blob(rng)]),
+        4 => MValue::Array(vec![
+            MValue::Int(*rng.pick(&[-16i128, -43, -44, -15, 1])),
+            blob(rng),
+        ]),
+        5 => MValue::Array(vec![]),
+        6 => MValue::Array(vec![MValue::Array(vec![blob(rng), blob(rng), blob(rng)])]),
+        7 => MValue::Text(
+            [
+                "https://example.com/cert.pem",
+                "application/cwt",
+                "",
+                "JWT",
+                "coap://h/p",
+            ][rng.below(5)]
+            .to_string(),
+        ),
+        8 => MValue::Tag(
+            32,
+            Box::new(MValue::Text("https://example.com/chain".to_string())),
+        ),
+        9 => MValue::Int(*rng.pick(&[0i128, 1, 2, 16, 18, 61, 98, 255, 256, 65535, -1, -7])),
+        10 => MValue::Map(vec![(MValue::Int(1), MValue::Text("issuer".to_string()))]),
+        11 => MValue::Map(vec![(
+            MValue::Int(1),
+            MValue::Map(vec![
+                (MValue::Int(1), MValue::Int(2)),
+                (MValue::Int(-1), MValue::Int(1)),
+                (MValue::Int(-2), blob(rng)),
+            ]),
+        )]),
+        12 => MValue::Map(vec![(MValue::Int(3), blob(rng))]),
+        _ => MValue::Bool(rng.bool()),
+    };
+    (label, v)
+}
+
 pub fn value_by_idx(i: usize) -> HResult<MValue> {
     value_palette().get(i).cloned().ok_or_else(|| {
         crate::trace::HarnessError(format!("value palette index {} out of range", i))
@@ -197,13 +268,29 @@ pub fn protected_from_arg(step: &Step, i: usize) -> HResult<MProtected> {
 /// Header argument for the protected slot of a template: sometimes in a wire form a decoder
 /// would have retained.
 pub fn gen_template_protected_arg(rng: &mut Rng) -> Arg {
-    if rng.chance(1, 8) {
-        match rng.below(4) {
+    if rng.chance(1, 6) {
+        match rng.below(5) {
             0 => return Arg::B(vec![0xa0]),
             1 => return Arg::B(vec![0xbf, 0xff]),
             _ => {
-                let h = crate::traffic::gen_header(rng, &crate::traffic::GenCfg::small(), 1);
-                let it = h.to_item();
+                // a fresh header, or one of the palette's (the headers the other layers of the
+                // same message are drawn from: two layers may well carry the SAME header in
+                // different wire forms)
+                let h = if rng.bool() {
+                    header_palette()[pick_header_idx(rng)].clone()
+                } else {
+                    crate::traffic::gen_header(rng, &crate::traffic::GenCfg::small(), 1)
+                };
+                let mut it = h.to_item();
+                if rng.chance(1, 3) {
+                    // the sender's choice of entry order
+                    if let crate::refcbor::Kind::Map(m) = &mut it.kind {
+                        if m.len() >= 2 {
+                            let n = m.len();
+                            m.swap(0, n - 1);
+                        }
+                    }
+                }
                 let mut out = Vec::new();
                 crate::refcbor::write_item(
                     &it,
